@@ -516,6 +516,18 @@ pub fn exec_hist(t: &[&str]) -> String {
                 }
                 Ok(())
             }
+            // forget the i-th live snapshot even when it is the last one (a prune that follows keeps no pack at all)
+            "F" => {
+                let i: usize = arg.parse().map_err(|_| "bad-op".to_string())?;
+                if !live.is_empty() {
+                    let l = live.remove(i % live.len());
+                    let raw = h.be.get(FileType::Snapshot, &l.snap.id).ok_or_else(|| fail("snapshot-file-missing", si))?;
+                    let repo = h.open().map_err(|_| fail("open", si))?;
+                    repo.delete_snapshots(&[l.snap.id]).map_err(|_| fail("forget", si))?;
+                    forgotten.push((l, raw));
+                }
+                Ok(())
+            }
             "u" => {
                 if let Some((l, raw)) = forgotten.pop() {
                     h.be.put_raw(FileType::Snapshot, *l.snap.id, raw);
@@ -744,6 +756,14 @@ impl Gen {
         stats.hit("hist.forget");
         true
     }
+    /// forget every live snapshot (`F0` each): the prune that follows keeps no pack
+    fn forget_all(&mut self, stats: &mut Stats) {
+        for v in std::mem::take(&mut self.live) {
+            self.steps.push("F0".into());
+            self.forgotten.push((v, true, None));
+        }
+        stats.hit("hist.forget-all");
+    }
     fn prune(&mut self, p: PruneSpec, stats: &mut Stats) {
         self.prune_as("p", p, stats);
     }
@@ -875,7 +895,7 @@ fn marking_prune(rng: &mut Rng, kd: i64, tight: bool) -> PruneSpec {
 pub fn gen_hist(rng: &mut Rng, stats: &mut Stats, thorough: bool) -> String {
     let seed = rng.below(1_000_000);
     let mut g = Gen::new();
-    let shape = rng.below(12);
+    let shape = rng.below(13);
     let sweep = if thorough { "Q" } else { "q" };
     match shape {
         // (a) keep-delete > 0, packs still marked, their blobs uploaded again (duplicates) into packs that become
@@ -1014,9 +1034,35 @@ pub fn gen_hist(rng: &mut Rng, stats: &mut Stats, thorough: bool) -> String {
                 g.prune_as(sweep, p, stats);
             }
         }
+        // (f) every snapshot is forgotten and a prune marks ALL packs (its index lists nothing but packs to delete); within
+        //     keep-delete a snapshot comes back — restored, or written by a backup that had read the index before — and the
+        //     next prune must bring the marked packs back
+        12 => {
+            stats.hit("hist.shape.prune-keeps-no-pack");
+            let v = 1 + rng.below(4);
+            if rng.chance(1, 2) {
+                g.backup(v, stats);
+            }
+            let overlap = rng.chance(1, 2);
+            if overlap {
+                g.open_stale(stats);
+            }
+            g.forget_all(stats);
+            let kd = *rng.pick(&[3600i64, 82_800]);
+            g.dt += *rng.pick(&[0i64, 0, 90_000]);
+            let tight = rng.chance(1, 2);
+            let p = marking_prune(rng, kd, tight);
+            g.prune(p, stats);
+            if overlap {
+                let w = *g.forgotten.iter().map(|(v, _, _)| v).max().unwrap_or(&0);
+                _ = g.finish_stale(w, rng, stats);
+            } else {
+                _ = g.resurrect(rng, stats);
+            }
+        }
         _ => stats.hit("hist.shape.random"),
     }
-    let len = if shape < 10 { rng.below(4) } else { 3 + rng.below(if thorough { 12 } else { 7 }) };
+    let len = if shape < 10 || shape == 12 { rng.below(4) } else { 3 + rng.below(if thorough { 12 } else { 7 }) };
     for _ in 0..len {
         match rng.below(24) {
             0..=4 => {
